@@ -194,3 +194,14 @@ PROPS["C14"] = dict(
     technique="Lean 4: position tracking through the transcribed Join program over all schedules (join_reads_ordered, join_snapshot, join_includes_snapshot, join_heads_are_entries, cross_join_deadlock_free); controlled schedules with park points between the two reads of the source",
     level_text="Kernel-checked over all schedules: a merge uses the source's heads as of instant a and its entries as of instant b >= a; if the source only grows, the heads read are entries of what was read, the merge adds exactly entries of the source's state at instant a, the result lies between dest and dest U that snapshot and contains all of it, and every head of the result is one of its entries; any pattern of concurrent merges (cross, cyclic) never deadlocks and a merge takes a bounded number of moves. Counter-schedules for the pre-repair order are kept as examples. Tied to the code by parking Join between its reads and interleaving appends/merges on the source, and by the extracted no-lock-while-holding fact.",
     level_note=CONC_NOTE, design_ref="§8 C14", rule=CONC_RULE)
+
+PROPS["C17"] = dict(
+    title="The block store is causally closed at every instant (crash safety)",
+    streams=[dict(name="crash", quick=["-n", "80"], thorough=["-n", "3000", "-thorough"], shards_quick=3, shards_thorough=14)],
+    diff_fields=r".*", spec_ids=["C17"],
+    technique="Lean 4: invariant over all histories that every prefix of the block-write sequence is closed under next and refs (store_closed_at_every_prefix), writes precede publication (memory_subset_store); write-log replay of real histories with every returned identifier loaded from the store as of its return and as of the end",
+    level_text="Kernel-checked for every reachable system (any history of appends, merges, identity changes on replicas sharing a store) and every crash point n: every entry block among the first n writes has all its predecessors and references among them; every entry a replica holds is in the store; what a manifest or head hash names is in the store with its history; the store only grows. Tied to the code by recording every block write/removal in order, checking closure at each write with the same decidable predicate (proved sound), and loading every returned entry hash / manifest from the store rebuilt at its return point and at the end, comparing with the recorded log state. Durability below Dag().Add is outside the model.",
+    level_note="Trusted: Lean kernel; that the store write sequence of entry blocks is the model's universe order (Append writes before publishing — compared by the harness write log); content addressing; durability/atomicity of a single Dag().Add; harness, driver. 'Loads to exactly the state' is checked on the implementation per returned identifier; its Lean statement is fetch_eq_source (C09) under SourceInStore.",
+    design_ref="§8 C17",
+    rule="crash stream: 2-4 replicas (few writers, so replicas often share an identity and identical blocks arise), some read-only (denying) replicas, 12-32 ops of append (small payload alphabet)/join/publish; every write prefix checked; up to 14 returned identifiers x 2 store snapshots loaded; distinct = distinct operation shapes; non-trivial = at least one successful append",
+)
